@@ -19,9 +19,12 @@ SumSeqs(q) == IF q = <<>> THEN 0 ELSE SumSeq(Head(q)) + SumSeqs(Tail(q))
 ShardOf(d) ==
   IF d.kind = "flat" THEN SumSeq(d.ix) % NShards
   ELSE IF d.kind = "extra" THEN d.i % NShards
+  ELSE IF d.kind = "nested" THEN (d.s1 + d.s2 + d.s3 + d.s4 + d.s5) % NShards
+  ELSE IF d.kind = "split" THEN d.at % NShards
   ELSE (d.subj + d.cs + SumSeqs(d.cb) + SumSeq(d.db)) % NShards
 
-Init == cas \in {d \in MsgFamFlat(MaxParts) \cup MsgFamPlural(MaxInner) \cup MsgFamExtra : ShardOf(d) = Shard}
+Init == cas \in {d \in MsgFamFlat(MaxParts) \cup MsgFamPlural(MaxInner) \cup MsgFamExtra \cup MsgFamNested \cup MsgFamSplit :
+                   ShardOf(d) = Shard}
 
 Meanings == <<"", "m", "verb">>
 Next == UNCHANGED cas
@@ -39,9 +42,10 @@ CaseRecord(d) ==
    multi |-> MsgMultiGroup(body),
    rep   |-> MsgRepeats(body),
    feat  |-> MsgFeature(body),
-   idterms |-> [i \in 1..Len(Meanings) |->
-                  [meaning |-> Meanings[i],
-                   term |-> MsgIdAbs([body |-> body, meaning |-> Meanings[i], desc |-> ""])]]]
+   idterms |-> LET ms == IF d.kind = "split" THEN <<MsgFamMeaning(d)>> ELSE Meanings IN
+               [i \in 1..Len(ms) |->
+                  [meaning |-> ms[i],
+                   term |-> MsgIdAbs([body |-> body, meaning |-> ms[i], desc |-> ""])]]]
 
 Export == PrintT(ToJson(CaseRecord(cas)))
 =============================================================================
